@@ -397,6 +397,90 @@ def x3(model: Model, rep: Report):
                           "kernel (inside the next experiment repetition)", detail=f"inside:{g}:{int(h)}:{tag}")
 
 
+class _NotConcreteTerm(Exception):
+    pass
+
+
+def _conc(t: Term, env: Dict[Term, int]):
+    """Concrete value of an index term for given start / repetitions: ints, lists of ints and nested lists (arrays); numpy through the few index maps used for grids."""
+    if t in env:
+        return env[t]
+    n_ = number(t)
+    if n_ is not None and n_.denominator == 1:
+        return int(n_)
+    k = t[0]
+    if k == "lin":
+        tot = t[2]
+        for a, c in t[1]:
+            v = _conc(a, env)
+            if not isinstance(v, int):
+                raise _NotConcreteTerm(show(a))
+            tot += c * v
+        if tot.denominator != 1:
+            raise _NotConcreteTerm(show(t))
+        return int(tot)
+    if k == "mono":
+        out = 1
+        for x in t[1]:
+            out *= _conc(x, env)
+        return out
+    if k == "list" or k == "tuple":
+        return [_conc(x, env) for x in t[1]]
+    if k == "const" and t[1] is None:
+        return None
+    if k == "slice" and len(t) == 5:
+        base = _conc(t[1], env)
+        lo, hi, st = (_conc(x, env) for x in t[2:5])
+        if not isinstance(base, list):
+            raise _NotConcreteTerm(show(t))
+        return base[slice(lo, hi, st)]
+    if k in ("sub", "item"):
+        base, i = _conc(t[1], env), (t[2] if isinstance(t[2], int) else _conc(t[2], env))
+        if isinstance(base, list) and isinstance(i, int) and -len(base) <= i < len(base):
+            return base[i]
+        raise _NotConcreteTerm(show(t))
+    if k == "attr" and t[2] == "T":
+        base = _conc(t[1], env)
+        if isinstance(base, list) and base and all(isinstance(r_, list) and len(r_) == len(base[0]) for r_ in base):
+            return [list(r_) for r_ in zip(*base)]
+        raise _NotConcreteTerm(show(t))
+    if k == "call" and not t[3]:
+        fn, args = t[1], t[2]
+        if fn in ("list", "sorted", "tuple") and len(args) == 1:
+            v = _conc(args[0], env)
+            if isinstance(v, list):
+                return sorted(v) if fn == "sorted" else list(v)
+        if fn == "range" and 1 <= len(args) <= 3:
+            return list(range(*[_conc(a, env) for a in args]))
+        if isinstance(fn, tuple) and fn[0] == "attr":
+            recv, name = fn[1], fn[2]
+            if recv[0] == "global" and recv[1] in ("np", "numpy"):
+                if name == "arange" and 1 <= len(args) <= 3:
+                    return list(range(*[_conc(a, env) for a in args]))
+                if name in ("asarray", "array") and len(args) == 1:
+                    return _conc(args[0], env)
+                raise _NotConcreteTerm(f"np.{name}")
+            base = _conc(recv, env)
+            if name in ("tolist", "copy") and not args:
+                return base
+            if name == "flatten" and not args and isinstance(base, list):
+                return [x for r_ in base for x in (r_ if isinstance(r_, list) else [r_])]
+            if name == "transpose" and not args:
+                return _conc(("attr", recv, "T"), env)
+            if name == "reshape" and isinstance(base, list) and all(isinstance(x, int) for x in base):
+                dims = [_conc(a, env) for a in (args[0][1] if len(args) == 1 and args[0][0] in ("tuple", "list") else args)]
+                if len(dims) == 2 and all(isinstance(d_, int) for d_ in dims):
+                    r_, c_ = dims
+                    if r_ == -1 and c_ > 0:
+                        r_ = len(base) // c_
+                    if c_ == -1 and r_ > 0:
+                        c_ = len(base) // r_
+                    if r_ * c_ == len(base):
+                        return [base[i * c_:(i + 1) * c_] for i in range(r_)]
+                raise _NotConcreteTerm(show(t))
+    raise _NotConcreteTerm(show(t)[:80])
+
+
 def x9(model: Model, rep: Report):
     rep.rule("C12.X9", "GeneralCalibrationIndexKernel, all four settings (heralded h, f-state f): every contained state (2 + f of them) takes 1 + h acquisitions per repetition, so "
                        "cycle_length = (1 + h)(2 + f) and stop = S + cycle_length * repetitions - 1; each category (heralded / calibration, per contained state) is the strided slice "
@@ -443,6 +527,8 @@ def x9(model: Model, rep: Report):
             if not keys:
                 raise AnalysisError("StateKey members not read")
             offsets: Dict[Tuple[str, str], int] = {}
+            # slot of each category in the cycle: heralded_k, calibration_k for k = 0, 1, (2) in this order (without heralding: calibration_k at k)
+            offsets_want = {(g_, f"STATE_{k_}"): ((2 * k_ + (0 if g_ == getters[0] else 1)) if h else k_) for g_ in getters for k_ in range(3)}
             all_want = ("call", "list", (("call", "range", (S, t_add(want_stop, ONE)), ()),), ())
             for g in getters:
                 f = C.resolve(g)
@@ -462,7 +548,30 @@ def x9(model: Model, rep: Report):
                                   "its indices belong to another category or lie outside the kernel", detail=f"{g}:{int(h)}:{int(fs)}:{kname}")
                         continue
                     if v[0] not in ("slice", "list"):
-                        raise AnalysisError(f"{where}: answer {show(v)[:120]} is not a strided slice of the kernel's index range; not read")
+                        # not a strided slice: decided by evaluating the answer for start 0 / 7 and 1..3 repetitions (bounded; the index maps of arange / reshape / T are
+                        # periodic in the repetition count)
+                        bad_at, o_, slot_ = None, None, None
+                        try:
+                            for S0 in (0, 7):
+                                for R0 in (1, 2, 3):
+                                    got = _conc(v, {S: S0, R: R0})
+                                    if R0 == 1:
+                                        # the slot is read off the single-repetition answer (any slot below the cycle length; distinctness is checked below)
+                                        o_ = got[0] - S0 if isinstance(got, list) and len(got) == 1 and isinstance(got[0], int) and 0 <= got[0] - S0 < want_n else None
+                                        slot_ = o_ if S0 == 0 else slot_
+                                    if o_ is None or o_ != slot_ or got != [S0 + o_ + j_ * want_n for j_ in range(R0)]:
+                                        o_ = slot_ if o_ is None else o_
+                                        o_ = offsets_want[(g, kname)] if o_ is None else o_
+                                        bad_at = bad_at or f"start={S0}, repetitions={R0}: {got} (slot {o_} of every cycle: {[S0 + o_ + j_ * want_n for j_ in range(R0)]})"
+                        except _NotConcreteTerm as e_:
+                            raise AnalysisError(f"{where}: answer {show(v)[:120]} is not a strided slice of the kernel's index range and not evaluated ({e_}); not read")
+                        rep.assume("a calibration category that is not written as a strided slice is decided for 1..3 repetitions only (concrete evaluation of the index expression)")
+                        rep.check(bad_at is None, "C12.X9", where, f.loc, found=bad_at or "slot of every cycle for 1..3 repetitions", required=f"list(range(start, stop + 1))[o::{want_n}] with 0 <= o < {want_n}",
+                                  what="the category is not the same slot of every cycle: repetitions are not translates by the cycle length / the heralded-then-calibration order is lost",
+                                  detail=f"{g}:{int(h)}:{int(fs)}:{kname}")
+                        if bad_at is None:
+                            offsets[(g, kname)] = slot_
+                        continue
                     off = number(v[2]) if v[0] == "slice" and len(v) == 5 else None
                     ok = off is not None and v[1] == all_want and v[3] == NONE and number(v[4]) == want_n and off.denominator == 1 and 0 <= off < want_n
                     rep.check(ok, "C12.X9", where, f.loc, found=show(v), required=f"list(range(start, stop + 1))[o::{want_n}] with 0 <= o < {want_n}",
